@@ -17,10 +17,16 @@ Generated modules:
   PygGen.BDay     bOff wday n : Int (closed-form business-day block of dt_bump, offset in days); bOffPath wday n : List Int
                   (the offset after each update of t inside the block, for the intermediate OverflowErrors)
   PygGen.Tables   bumpUnit (unit letter -> Step), periodUnits, namedTenors, wkdays, months, regex sources
+  PygGen.Np2dt    np2dt : NpRes -> NpAct (the isinstance chain of np2dt: which class of `t.astype(datetime.datetime)` gets which
+                  treatment, first matching branch wins).  The numpy conversion itself is library behaviour (hand-modelled,
+                  PygModel/NpDate.lean); the function body is NOT integer arithmetic, only its dispatch is translated.
+  PygGen.DuMonths duMonths : the month-name table `dateutil.parser.parserinfo.MONTHS` (lower-cased, as `parserinfo._convert` does),
+                  read from the dateutil that the implementation imports (library table, lifted so that the month-name theorems
+                  quantify over the names dateutil really knows)
 """
 import ast, os, re
 
-MODULES = ['PygGen.Ym', 'PygGen.Num2dt', 'PygGen.BDay', 'PygGen.Tables']
+MODULES = ['PygGen.Ym', 'PygGen.Num2dt', 'PygGen.BDay', 'PygGen.Tables', 'PygGen.Np2dt', 'PygGen.DuMonths']
 
 
 class Unsupported(Exception):
@@ -558,6 +564,84 @@ def gen_bday_and_tables(tree):
     return bday, tables
 
 
+def gen_np2dt(tree):
+    """np2dt(t): `res = t.astype(datetime.datetime)` followed by a chain of class tests on `res`, each returning one of the
+    recognised values.  Translated to a function of the CLASS of `res` (NpRes) giving the action (NpAct); `isinstance` follows
+    Python's class hierarchy (a datetime.datetime is also a datetime.date): `NpRes.isDate .datetime = true`."""
+    f = find_func(tree, 'np2dt')
+    if [a.arg for a in f.args.args] != ['t']:
+        raise Unsupported('np2dt: signature changed', f)
+    body = [s for s in f.body if not (isinstance(s, ast.Expr) and isinstance(s.value, ast.Constant) and isinstance(s.value.value, str))]
+    if not body or not same(body[0], 'res = t.astype(datetime.datetime)'):
+        raise Unsupported('np2dt: does not start with res = t.astype(datetime.datetime)', body[0] if body else f)
+    tests = [('isinstance(res, datetime.datetime)', 'res.isDatetime'), ('isinstance(res, datetime.date)', 'res.isDate'), ('is_int(res)', 'res.isInt')]
+    acts = [('res', '.same'), ('datetime.datetime(res.year, res.month, res.day)', '.midnight'), ('pd.Timestamp(t)', '.pdTimestamp')]
+
+    def test_of(node):
+        for text, lean in tests:
+            if same(node, text):
+                return lean
+        raise Unsupported('np2dt: unrecognised class test', node)
+
+    def act_of(stmts):
+        if len(stmts) == 1 and isinstance(stmts[0], ast.Return) and stmts[0].value is not None:
+            for text, lean in acts:
+                if same(stmts[0].value, text):
+                    return lean
+        raise Unsupported('np2dt: a branch is not `return <res | datetime.datetime(res.year, res.month, res.day) | pd.Timestamp(t)>`', stmts[0] if stmts else f)
+
+    # every then-branch returns (act_of checks it), so `if A: return X  else: E` followed by R  ==  `if A: return X` followed by E; R
+    arms, rest, final = [], body[1:], None
+    while rest:
+        s = rest[0]
+        if isinstance(s, ast.If):
+            arms.append((test_of(s.test), act_of(s.body), s.lineno))
+            rest = list(s.orelse) + rest[1:]
+            continue
+        final = act_of(rest[:1])
+        break
+    if final is None:
+        raise Unsupported('np2dt: the chain of class tests is not followed by a final return', f)
+    out = ['/-- the class dispatch of `np2dt`, lines %d-%d: what is done with `res = t.astype(datetime.datetime)` according to its class -/' % (f.lineno, f.end_lineno),
+           'def np2dt (res : NpRes) : NpAct :=']
+    for i, (t_, a_, ln) in enumerate(arms):
+        out.append('  %s %s then %s   -- line %d' % ('if' if i == 0 else 'else if', t_, a_, ln))
+    out += ['  else %s' % final if arms else '  %s' % final, '']
+    return 'import PygModel.GenTypes\n\nnamespace Pyg.Gen\n\n' + '\n'.join(out) + '\nend Pyg.Gen\n'
+
+
+def dateutil_parser_path():
+    """the _parser.py of the dateutil the implementation imports (None when it cannot be located: the committed table is kept)"""
+    try:
+        import importlib.util
+        spec = importlib.util.find_spec('dateutil.parser._parser')
+        if spec is not None and spec.origin and os.path.exists(spec.origin):
+            return spec.origin
+    except Exception:
+        pass
+    import glob
+    hits = sorted(glob.glob('/venv/lib/python*/site-packages/dateutil/parser/_parser.py'))
+    return hits[0] if hits else None
+
+
+def gen_du_months(path):
+    tree = ast.parse(open(path).read())
+    for n in tree.body:
+        if isinstance(n, ast.ClassDef) and n.name == 'parserinfo':
+            for s in n.body:
+                if isinstance(s, ast.Assign) and len(s.targets) == 1 and isinstance(s.targets[0], ast.Name) and s.targets[0].id == 'MONTHS':
+                    v = s.value
+                    if not (isinstance(v, ast.List) and len(v.elts) == 12 and all(
+                            isinstance(e, ast.Tuple) and e.elts and all(isinstance(x, ast.Constant) and isinstance(x.value, str) for x in e.elts) for e in v.elts)):
+                        raise Unsupported('dateutil parserinfo.MONTHS is not a list of 12 tuples of strings', s)
+                    rows = ['[%s]' % ', '.join('"%s"' % x.value.lower() for x in e.elts) for e in v.elts]
+                    out = ['/-- `dateutil.parser.parserinfo.MONTHS` (dateutil/parser/_parser.py line %d), lower-cased as `parserinfo._convert` stores' % s.lineno,
+                           'them: entry `k` (from 0) lists the names of month `k + 1`; `parserinfo.month(name)` looks up `name.lower()` -/',
+                           'def duMonths : List (List String) :=', '  [' + ',\n   '.join(rows) + ']', '']
+                    return 'namespace Pyg.Gen\n\n' + '\n'.join(out) + '\nend Pyg.Gen\n'
+    raise Unsupported('dateutil: class parserinfo with a MONTHS table not found in %s' % path)
+
+
 # ---------------------------------------------------------------------------------------------- entry point
 
 def write_if_changed(path, text):
@@ -575,7 +659,7 @@ def translate_source(text):
         tree = ast.parse(text)
     except SyntaxError as e:
         return out, [dict(name=m, detail='_dates.py does not parse: %s' % e) for m in MODULES]
-    for name, fn in (('PygGen.Ym', gen_ym), ('PygGen.Num2dt', gen_num2dt)):
+    for name, fn in (('PygGen.Ym', gen_ym), ('PygGen.Num2dt', gen_num2dt), ('PygGen.Np2dt', gen_np2dt)):
         try:
             out[name] = fn(tree)
         except Unsupported as e:
@@ -597,13 +681,25 @@ def regenerate(repo_dir, lean_dir):
     except OSError as e:
         return dict(modules=[], broken=[dict(name=m, detail='cannot read %s: %s' % (path, e)) for m in MODULES])
     out, broken = translate_source(text)
+    skipped = []
+    du = dateutil_parser_path()
+    if du is None:
+        skipped.append('PygGen.DuMonths')        # dateutil not visible to this interpreter: the committed table stays
+    else:
+        try:
+            out['PygGen.DuMonths'] = gen_du_months(du)
+        except (Unsupported, OSError, SyntaxError) as e:
+            broken.append(dict(name='PygGen.DuMonths', detail=str(e)))
     written = []
     for name in MODULES:
         if name in out:
             f = os.path.join(lean_dir, *name.split('.')) + '.lean'
-            if write_if_changed(f, HEADER % 'current working tree' + out[name]):
+            head = HEADER % 'current working tree'
+            if name == 'PygGen.DuMonths':
+                head = head.replace('src/pyg_base/_dates.py', 'dateutil/parser/_parser.py of the interpreter that runs the implementation')
+            if write_if_changed(f, head + out[name]):
                 written.append(name)
-    return dict(modules=sorted(out), rewritten=written, broken=broken)
+    return dict(modules=sorted(out), rewritten=written, broken=broken, skipped=skipped)
 
 
 if __name__ == '__main__':
